@@ -45,6 +45,10 @@ def build(tier):
         src += hgen.cond(name, "n: int, oi: int, li: int, lat: int", [f"0 <= n <= {2 if q else nmax}", f"0 <= oi < {len(offs)} and 0 <= li < {len(olds)}", f"1 <= lat <= {1 if q else 3}"],
                          f"L.transfer_slow({verb!r}, n, OFFS[L.hb.conc(oi, 0, {len(offs) - 1})], OLDS[L.hb.conc(li, 0, {len(olds) - 1})], lat)", sig="hb.KEY")
         conds += [Cond(name, "prop", T, group="slow-backend"), Cond(name + "__twin", "twin", 60, group="slow-backend")]
+    # two sessions on one server: what B stored (or replaced) is what A gets afterwards
+    src += hgen.cond("cross_session", "variant: int, n: int, lat: int", ["0 <= variant <= 3", f"0 <= n <= {3 if q else 5}", f"0 <= lat <= {1 if q else 2}"] + (["n % 3 == 0"] if q else []),
+                     "L.cross_session(variant, n, lat)", sig="hb.KEY")
+    conds += [Cond("cross_session", "prop", T, group="cross-session"), Cond("cross_session__twin", "twin", 60, group="cross-session")]
     # end to end: the real client's copy loops, get_stream (TYPE, EPSV, REST, command) and finish()
     for kind in ("upload", "append", "download", "download_read"):
         for off in (0, 2):
@@ -71,6 +75,7 @@ def build(tier):
                                                                    f"network segmentation point 0..n, the first {'one' if q else 'two'} short reads of the data socket of symbolic size 1..block; all-distinct byte pattern",
             "slow backend": f"the same three verbs with every backend call suspending for 1..{1 if q else 3} virtual ms (MemoryPathIO semantics, AsyncPathIO timing): payload 0..{2 if q else nmax}, all offsets and old lengths above; "
                             "additionally the 226 must not be written before the stored file's close() has completed",
+            "two sessions": f"A downloads a file, B replaces it (DELE + STOR; STOR tmp + DELE + RNFR/RNTO; STOR over it; APPE) with a payload of 0..{3 if q else 5} bytes and gets its completion reply, A downloads it again and asks MLST; backend latency 0..{1 if q else 2}",
             "byte values": f"2 payload / content bytes over {L.SPECIAL} (NUL, LF, CR, IAC, SUB, DEL, ...): Mode A, io.BytesIO realises symbolic bytes",
             "end to end (real Client over SimNet)": f"upload_stream / append_stream / download_stream (drained by iter_by_block, by read() to end of stream, and by read(n) until empty), payload 0..{2 if q else 4}, client and server block sizes 1..2, offset in (0, 2), old file absent / 3 bytes, network delivering whole writes or single bytes",
         },
